@@ -296,11 +296,17 @@ def run_gen(case, R):
             f0 = os.path.join(R.tmp, 'other.incon')
             o = t2incons.t2incon()
             perm = __import__('numpy').array([1e-15, 2e-15, 3e-15]) if reuse == 'TOUGHREACT' else None
+            # (the earlier file holds two blocks, one of them with more primary variables than one line takes)
             o.add_incon(t2incons.t2blockincon([1.0e5, 20.0, 0.5], 'zzz99', 0.1, perm))
+            nprev = 3 + (len(blocks) + nv) % 6
+            if nprev != 3:
+                o = t2incons.t2incon()
+                for nm_ in ('zzz98', 'zzz99'): o.add_incon(t2incons.t2blockincon([1.0e5 + k for k in range(nprev)], nm_, 0.1, perm))
             o.simulator = reuse
             o.timing = {'kcyc': 7, 'iter': 3, 'nm': 1, 'tstart': 0.0, 'sumtim': 86400.0}
             o.write(f0, reset=False)
-            r = t2incons.t2incon(f0)
+            r = t2incons.t2incon(f0, num_variables=(nprev if nprev > 4 else None))
+            R.label('history:earlier-file-had-%s-variables' % ('more-than-4' if nprev > 4 else 'up-to-4'))
             r.read(f1, num_variables=nvarg, check_blocknames=case['check'])
         else:
             r = t2incons.t2incon(f1, num_variables=nvarg, check_blocknames=case['check'])
